@@ -161,6 +161,19 @@ m("c03_jump_if_no_jump", "C03", r"C03\.JUMP:compiler:if-skeleton", "the jump ove
                     self.processing_bodies.push(ProcessingBody::Branch(idx));""", """                    self.end_branch(self.chunk.len());
                     let idx = self.chunk.add(Instruction::Jump(0), None) as usize;
                     self.processing_bodies.push(ProcessingBody::Branch(idx));""")
+m("c14_len_bytes", "C14", r"C14\.LEN:value::Value::get_item", "string indexing normalises negative indices against the byte length",
+  "tera/src/value/mod.rs", """                Ok(match resolve_index(&item, chars.len(), "String")? {""", """                Ok(match resolve_index(&item, s.len().min(chars.len() + s.len()), "String")? {""")
+m("c15_keynum_hash_tag", "C15", r"C15\.KEYNUM:hash-agrees-across-widths", "non-negative signed keys are hashed with their own tag",
+  "tera/src/value/key.rs", """            KeyNumber::Signed(v) => {
+                0u8.hash(state);
+                (v as u128).hash(state);""", """            KeyNumber::Signed(v) => {
+                2u8.hash(state);
+                (v as u128).hash(state);""")
+m("c16_split_skips_empty", "C16", r"C16\.ORDUSE:split:std-split-with-pat", "split drops empty pieces",
+  "tera/src/filters.rs", """        .split(pat)
+        .map(Into::into)""", """        .split(pat)
+        .filter(|p| !p.is_empty())
+        .map(Into::into)""")
 # ---------------------------------------------------------------- C05
 m("c05_iso_global", "C05", r"C05\.ISO:writer:global_context", "render_component gives the component the global context",
   "tera/src/vm/interpreter.rs", """        let mut state = State::new_with_chunk(&context, chunk);
